@@ -891,6 +891,67 @@ theorem advanceStage_nonneg (ps : PhaseSt α) (x : List α) (yp : PSlice α) (dt
   linarith [this, mul_comm dt (PBM.dXdt (PBM.correctedFlux ps.grid.bins dt (fn x)
     (PBM.netFlux ps.grid.bins (fn ps.growth) (fn x) (fn (Grid.widths ps.grid.bounds)))) (nucIdxOf ps yp.Rnuc) yp.nucRate i)]
 
+/-! ### from construction: `setup()` establishes what the step theorems assume -/
+
+theorem setupState_hist (c : Cfg α) (s : St α) (a : EvalAns α) (eq : List (Option (List α × List α))) :
+    ∃ y : Slice α, (setupState c s a eq).hist = y :: s.hist.tail ∧ y.temp = a.T ∧
+      (∀ yp ∈ y.ph, ∃ pc ∈ c.phases, NucOK pc.rmin yp) := by
+  unfold setupState
+  simp only
+  refine ⟨_, rfl, ?_, ?_⟩
+  · rw [(growthRate_time _ _ _ _).2.1]; rfl
+  · apply growthRate_ph c _ a _ (fun yp => ∃ pc ∈ c.phases, NucOK pc.rmin yp)
+    · intro yp ea eb ⟨pc, hpc, h⟩; exact ⟨pc, hpc, h⟩
+    · exact nucleation_ok _ _ _ _ _ _
+
+/-- `setup()` leaves every PBM on a consistent grid when it was constructed on one -/
+theorem setupState_good (c : Cfg α) (s : St α) (a : EvalAns α) (eq : List (Option (List α × List α)))
+    (hg : AllGood s.ph) : AllGood (setupState c s a eq).ph := by
+  unfold setupState
+  simp only
+  apply growthRate_good
+  have h0 : AllGood (s.ph.map (fun ps => { ps with grid := Grid.reset ps.grid true })) := by
+    intro ps hps
+    rw [List.mem_map] at hps
+    obtain ⟨q, hq, rfl⟩ := hps
+    exact reset_good _ (hg q hq)
+  intro ps hps
+  rw [List.mem_map] at hps
+  obtain ⟨q, hq, rfl⟩ := hps
+  show GridGood q.grid
+  split at hq
+  · exact createLookup_good _ _ _ h0 q hq
+  · simp only at hq
+    rw [List.mem_map] at hq
+    obtain ⟨r, hr, rfl⟩ := hq
+    exact h0 r hr
+
+/-- binary: after `setup()` the lookup table is fresh for the recorded temperature -/
+theorem setupState_fresh (c : Cfg α) (s : St α) (a : EvalAns α) (eq : List (Option (List α × List α)))
+    (hb : c.binary = true) (hmax : 0 ≤ c.maxTempChange) :
+    Fresh c (setupState c s a eq) ((setupState c s a eq).cur c.nElem).temp := by
+  unfold setupState
+  simp only [St.cur, List.headD_cons]
+  exact growthRate_fresh_binary c _ a _ hb hmax
+
+/-- **every run from a freshly constructed model, for every backend, schedule, iterator and number of steps**: the stored
+grids are consistent and non-negative after the run, and (binary) the lookup table is fresh for the newest row -/
+theorem runFromSetup_good (c : Cfg α) (s : St α) (a0 : EvalAns α) (eq : List (Option (List α × List α))) (tf dtminS dtmaxS : α)
+    (steps : List (StepAns α)) (s' : St α) (m' : α) (hg : AllGood s.ph)
+    (h : runFromSetup c s a0 eq tf dtminS dtmaxS steps = some (s', m')) : AllGood s'.ph :=
+  runSteps_good c tf dtminS steps _ s' dtmaxS m' (setupState_good c s a0 eq hg) h
+
+theorem runFromSetup_fresh (c : Cfg α) (s : St α) (a0 : EvalAns α) (eq : List (Option (List α × List α))) (tf dtminS dtmaxS : α)
+    (steps : List (StepAns α)) (s' : St α) (m' : α) (hb : c.binary = true) (hmax : 0 ≤ c.maxTempChange)
+    (h : runFromSetup c s a0 eq tf dtminS dtmaxS steps = some (s', m')) : Fresh c s' (s'.cur c.nElem).temp :=
+  runSteps_fresh c tf dtminS hb hmax steps _ s' dtmaxS m' (setupState_fresh c s a0 eq hb hmax) h
+
+theorem runFromSetup_reach (c : Cfg α) (s : St α) (a0 : EvalAns α) (eq : List (Option (List α × List α))) (tf dtminS dtmaxS : α)
+    (steps : List (StepAns α)) (s' : St α) (m' : α) (hmin : 0 < dtminS) (hmax : 0 < dtmaxS)
+    (h : runFromSetup c s a0 eq tf dtminS dtmaxS steps = some (s', m')) :
+    Reach c tf (setupState c s a0 eq).hist s'.hist :=
+  runSteps_reach c tf dtminS hmin steps _ s' dtmaxS m' hmax h
+
 /-! ### non-vacuity
 
 `GridGood` is satisfiable (the grid a `PopulationBalanceModel` is constructed with).  The hypothesis `… = some o` of the step
